@@ -266,7 +266,7 @@ where
     let mut vecs = [Vec::new(), Vec::new(), Vec::new(), Vec::new()];
 
     for &a in sequence.iter() {
-        let two_bits: usize = (a.as_() >> shift) & 3;
+        let two_bits: usize = (a >> shift).as_() & 3;
         vecs[two_bits as usize].push(a);
     }
 
